@@ -7,6 +7,10 @@ UNIT = dict(
         "queue / work element type and the payoff map are opaque (only emptiness matters)",
     ],
     items=[
+        dict(raw="""// ghost flag: the cached chance draws of this iteration have been reset (a fresh draw next pass)
+pub struct Draws { pub rearmed: Ghost<bool> }
+#[verifier::external_body] pub fn __draws_of_this_pass() -> (d: Draws) ensures !d.rearmed@ { unimplemented!() }
+#[verifier::external_body] pub fn __abs_rearm_chance_draws(d: &mut Draws) ensures final(d).rearmed@ { unimplemented!() }"""),
         dict(raw="#[verifier::external_body] pub struct Tgt { }\nimpl Tgt { #[verifier::external_body] pub fn get(&self) -> usize { unimplemented!() } }"),
         dict(file="src/solve/vanilla.rs", path="fn solve_generic_multi", closure=0, header_re=r"^\|_\|$",
              as_fn="solve_generic_multi__scope_body", params="iter: u64, target: Tgt",
@@ -24,13 +28,15 @@ UNIT = dict(
                  (r"^payoffs\.par_extend\(queue\.par_drain\(\.\.\)\.map\(\|\(node, p_chance, p_player\)\| \{ let payoff = recurse_multi\( node, &chance_infosets, \[player_one, player_two\], p_chance, p_player, &\(\), \); \(ByAddress\(node\), payoff\) \}\)\);$",
                   ("abstract", "__abs_par_drain_into(&mut payoffs, &mut queue); // @ob C06.V.workspace_fresh.payoff_cache")),
                  (r"^recurse_multi\( start, &chance_infosets, \[player_one, player_two\], 1\.0, \[1\.0; 2\], &payoffs, \);$", ("abstract", "")),
-                 (r"^chance_infosets\.iter_mut\(\)\.for_each\(ChanceRecurse::advance\);$", ("abstract", "")),
+                 (r"^chance_infosets\.iter_mut\(\)\.for_each\(ChanceRecurse::advance\);$", ("abstract", "__abs_rearm_chance_draws(&mut __draws);"), "optional"),
                  (r"^for \(reg, infos\) in regs\.iter_mut\(\)\.zip\(player_infosets\.iter_mut\(\)\) \{ \*reg = infos\.iter_mut\(\)\.map\(\|info\| info\.advance\(it, params\)\)\.sum\(\); \}$", ("abstract", "")),
                  (r"^let \[reg_one, reg_two\] = regs;$", ("abstract", "")),
                  (r"^if .* \{ break; \}$", ("abstract_break", "if __abs_stop() { break; }")),
              ]},
              loops={0: dict(kind="for", head="""invariant
-    queue@.len() == 0, work@.len() == 0, map_len(&payoffs) == 0, // @ob C06.V.solve_generic_multi.workspace_fresh""")},
+    queue@.len() == 0, work@.len() == 0, map_len(&payoffs) == 0, // @ob C06.V.solve_generic_multi.workspace_fresh""",
+                            body_start="let mut __draws = __draws_of_this_pass();",
+                            body_end="proof { assert(__draws.rearmed@); } // @ob C10.V.solve_generic_multi.fresh_draw_next_pass")},
         ),
         dict(raw="#[verifier::external_body] pub fn __abs_stop() -> bool { unimplemented!() }"),
     ],
